@@ -492,8 +492,10 @@ def generate():
     L.append("(* continuous distributions, bins: bin i has probability pw[i]/pd under the      *)")
     L.append("(* stated distribution (a body of equal bins, the two outermost ones split into *)")
     L.append("(* tail bins of 1, 1, 2, 4, ... /pd); edges are the quantiles that separate the *)")
-    L.append("(* bins, as <<m, e>>: edge = org + m * 10^-e (org: integer origin, used for     *)")
-    L.append("(* narrow distributions).                                                       *)")
+    L.append("(* bins, as <<ref, m, e>> with nine significant digits of the distance to a     *)")
+    L.append("(* reference point: ref 0: edge = org + m 10^-e (org: integer origin of the     *)")
+    L.append("(* case), ref 1: edge = lower support bound + m 10^-e, ref 2: edge = upper      *)")
+    L.append("(* support bound - m 10^-e.                                                     *)")
     L.append("(* Discrete distributions carry maxv (last value with a bin of its own); their  *)")
     L.append("(* probabilities are computed exactly in Samplers.tla, except Poisson (tab:     *)")
     L.append("(* rows <<lo, hi, alo, ahi>>, probability of lo..hi (hi < lo: lo and above)      *)")
@@ -514,15 +516,24 @@ def generate():
             x = quantile(cdf, acc / PD, lo, hi)
             back = cdf(x)
             assert abs(back - acc / PD) < 1e-10, (cid, acc, x, back)
-            d = dec9(x - ORG.get(cid, 0))
-            val = d[0] / 10.0 ** d[1]
+            # nine significant digits of the distance to the nearest reference point: the case origin (ref 0),
+            # the lower support bound (ref 1: edge = lo + m 10^-e) or the upper one (ref 2: edge = hi - m 10^-e)
+            cands = [(abs(x - ORG.get(cid, 0)), 0, x - ORG.get(cid, 0))]
+            if not math.isinf(lo):
+                cands.append((abs(x - lo), 1, x - lo))
+            if not math.isinf(hi):
+                cands.append((abs(hi - x), 2, hi - x))
+            _, ref, dist = min(cands)
+            d = dec9(dist)
+            back9 = d[0] / 10.0 ** d[1]
+            val = (ORG.get(cid, 0) + back9) if ref == 0 else (lo + back9) if ref == 1 else (hi - back9)
             assert prev is None or val > prev, (cid, acc, prev, val)
             prev = val
-            edges.append(d)
+            edges.append((ref, d[0], d[1]))
         rows.append('  [id |-> "%s", s |-> "%s", kind |-> "cont", big |-> %s, par |-> %s, v1 |-> %s, v2 |-> %s,\n'
                     '   fitted |-> %s, maxv |-> 0, tabd |-> 0, tab |-> <<>>, org |-> %d, pd |-> %d,\n   pw |-> %s,\n   edges |-> %s]'
                     % (cid, s, "TRUE" if big else "FALSE", tla_seq(par, tla_rat), tla_seq(v1, tla_rat), tla_seq(v2, tla_rat),
-                       "FALSE" if cid in NOFIT else "TRUE", ORG.get(cid, 0), PD, tla_seq(pw), tla_seq(edges, lambda d: "<<%d,%d>>" % d)))
+                       "FALSE" if cid in NOFIT else "TRUE", ORG.get(cid, 0), PD, tla_seq(pw), tla_seq(edges, lambda d: "<<%d,%d,%d>>" % d)))
     for (cid, s, par, v1, v2, maxv) in DISC:
         rows.append('  [id |-> "%s", s |-> "%s", kind |-> "disc", big |-> FALSE, par |-> %s, v1 |-> %s, v2 |-> %s,\n'
                     '   fitted |-> TRUE, maxv |-> %d, tabd |-> 0, tab |-> <<>>, org |-> 0, pd |-> 0, pw |-> <<>>, edges |-> <<>>]'
